@@ -43,6 +43,12 @@ func govcMakeParas() []govcPara {
 			return "<p>" + j(w[:20]) + " <b><a href=\"javascript:go(1)\">" + w[20] + "</a> " + j(w[21:30]) + "</b> " + j(w[30:]) + "</p>"
 		}),
 		mk("br-inside", "pe", func(w []string) string { return "<p>" + j(w[:30]) + "<br>" + j(w[30:]) + "</p>" }),
+		mk("br-double", "pi", func(w []string) string { return "<p>" + j(w[:30]) + "<br><br>" + j(w[30:]) + "</p>" }),
+		mk("br-triple-spaced", "pj", func(w []string) string { return "<p>" + j(w[:5]) + "<br> <br>\n<br>" + j(w[5:]) + "</p>" }),
+		mk("prose-br-br-linkline", "pl", func(w []string) string {
+			return "<p>" + j(w[:48]) + "<br><br>" + w[48] + " <a href=\"/r1\">" + j(w[49:52]) + "</a> <a href=\"/r2\">" + j(w[52:56]) + "</a> <a href=\"/r3\">" + j(w[56:]) + "</a></p>"
+		}),
+		mk("short-then-br-long", "pk", func(w []string) string { return "<p>" + j(w[:3]) + "<br><br>" + j(w[3:]) + "</p>" }),
 		mk("font-middle", "pf", func(w []string) string {
 			return "<p>" + j(w[:20]) + " <font size=2>" + j(w[20:25]) + "</font> " + j(w[25:]) + "</p>"
 		}),
@@ -57,34 +63,61 @@ func govcMakeParas() []govcPara {
 
 func TestGovcParagraphReplay(t *testing.T) {
 	paras := govcMakeParas()
-	var body strings.Builder
-	body.WriteString("<html><head><title>Replay page</title></head><body><article>")
-	for _, p := range paras {
-		body.WriteString(p.html + "\n")
-	}
-	body.WriteString("</article></body></html>")
-	res, err := ApplyForReader(strings.NewReader(body.String()), nil)
-	if err != nil {
-		t.Fatal(err)
-	}
-	out := map[string]bool{}
-	for _, w := range strings.Fields(res.Text) {
-		out[w] = true
-	}
-	for _, p := range paras {
-		n := 0
-		var missing []string
-		for _, w := range p.words {
-			if out[w] {
-				n++
-			} else {
-				missing = append(missing, w)
+	evals, nontrivial := 0, 0
+	check := func(key, doc string, ps []govcPara) {
+		res, err := ApplyForReader(strings.NewReader(doc), nil)
+		evals++
+		if err != nil {
+			t.Errorf("GOVC-FAIL %s :: paragraph case returned error %v", key, err)
+			return
+		}
+		out := map[string]bool{}
+		for _, w := range strings.Fields(res.Text) {
+			out[w] = true
+		}
+		kept := false
+		for _, p := range ps {
+			n := 0
+			var missing []string
+			for _, w := range p.words {
+				if out[w] {
+					n++
+				} else {
+					missing = append(missing, w)
+				}
+			}
+			if n > 0 {
+				kept = true
+			}
+			if n != 0 && n != len(p.words) {
+				t.Errorf("GOVC-FAIL %s/%s :: paragraph %q is cut: %d of %d words kept; missing e.g. %v", key, p.name, p.name, n, len(p.words), missing[:minInt(5, len(missing))])
 			}
 		}
-		if n != 0 && n != len(p.words) {
-			t.Errorf("paragraph %q is cut: %d of %d words kept; missing e.g. %v", p.name, n, len(p.words), missing[:minInt(5, len(missing))])
+		if kept {
+			nontrivial++
+		}
+		if evals <= 2 {
+			fmt.Printf("GOVC-SAMPLE %s -> %d words in Result.Text\n", key, len(strings.Fields(res.Text)))
 		}
 	}
+	wrap := func(inner string) string {
+		return "<html><head><title>Replay page</title></head><body><article>" + inner + "</article></body></html>"
+	}
+	// all paragraphs in one article
+	var all strings.Builder
+	for _, p := range paras {
+		all.WriteString(p.html + "\n")
+	}
+	check("all-in-one", wrap(all.String()), paras)
+	filler := func(pfx string) string { return "<p>" + strings.Join(govcTok(pfx, 50), " ") + "</p>" }
+	for _, p := range paras {
+		// alone; between long paragraphs; after a short link list (boilerplate-like context); inside a div with a sibling list
+		check("alone/"+p.name, wrap(p.html), []govcPara{p})
+		check("between/"+p.name, wrap(filler("fa")+p.html+filler("fb")), []govcPara{p})
+		check("after-links/"+p.name, wrap("<ul><li><a href=\"/a\">one</a></li><li><a href=\"/b\">two</a></li></ul>"+p.html+filler("fc")), []govcPara{p})
+		check("in-div/"+p.name, wrap("<div class=\"story\">"+p.html+"<ul><li>"+strings.Join(govcTok("fd", 20), " ")+"</li></ul></div>"+filler("fe")), []govcPara{p})
+	}
+	fmt.Printf("GOVC-CASES evaluations=%d distinct_nontrivial=%d rule=%s\n", evals, nontrivial, "12 simple-paragraph shapes (inline children, javascript: anchors, line breaks) x {alone, between paragraphs, after a link list, in a div} + all in one article; 60 unique tokens per paragraph; non-trivial = the paragraph was kept")
 }
 
 func minInt(a, b int) int {
